@@ -208,7 +208,6 @@ class OrthoXMLParser(object):
                                     dupl_node.remove_child(hog)
                                     for child in hog.children:
                                         dupl_node.add_child(child)
-                                    self.paralog_stack[-1]['depth'] -= 1
                                 return
                         except KeyError:
                             pass
